@@ -117,7 +117,7 @@ REJECTED = {
 rows = []
 for pid in [f"C{i:02d}" for i in range(1, 18)]:
     for v in "abcdefghijkl":
-        d = f"/tmp/seed/{pid}"
+        d = f"/root/work/seed/{pid}"
         if not os.path.exists(f"{d}/{v}.eval.json"):
             continue
         if f"{pid}{v}" in REJECTED:
